@@ -112,6 +112,9 @@ pub struct C16Case {
     pub zooms: bool,
     pub multicall: bool,
     pub ucsc: bool,
+    /// the text comes on standard input (named `-`, `stdin` or `/dev/stdin`, by rotation)
+    #[serde(default)]
+    pub stdin: bool,
 }
 
 pub struct C16;
@@ -179,11 +182,17 @@ fn c16_all(quick: bool) -> Vec<C16Case> {
                                     for zooms in [false, true] {
                                         for multicall in [false, true] {
                                             for ucsc in [false, true] {
-                                                n += 1;
-                                                if quick && n % 19 != 0 {
-                                                    continue;
+                                                for stdin in [false, true] {
+                                                    // standard input: the tools ignore --parallel and always make one pass
+                                                    if stdin && !(parallel == "auto" && (threads == 1 || threads == 6)) {
+                                                        continue;
+                                                    }
+                                                    n += 1;
+                                                    if quick && n % 19 != 0 {
+                                                        continue;
+                                                    }
+                                                    v.push(C16Case { bed, input, threads, parallel: s(parallel), single_pass, inmemory, uncompressed, block_size, zooms, multicall, ucsc, stdin });
                                                 }
-                                                v.push(C16Case { bed, input, threads, parallel: s(parallel), single_pass, inmemory, uncompressed, block_size, zooms, multicall, ucsc });
                                             }
                                         }
                                     }
@@ -213,8 +222,10 @@ impl Check for C16 {
         let (text, sizes) = if c.bed { bed_inputs()[c.input].clone() } else { bedgraph_inputs()[c.input].clone() };
         std::fs::write(dir.join("in.txt"), &text).unwrap();
         std::fs::write(dir.join("sizes"), &sizes).unwrap();
+        let stdin_name = ["-", "stdin", "/dev/stdin"][(c.input + c.threads + c.block_size as usize) % 3];
         let tags = vec![
             if c.bed { s("bed") } else { s("bedgraph") },
+            if c.stdin { s("from_stdin") } else { s("from_file") },
             format!("parallel_{}", c.parallel),
             if c.ucsc { s("ucsc_flags") } else { s("native_flags") },
             if c.multicall { s("multicall") } else { s("applet") },
@@ -222,7 +233,7 @@ impl Check for C16 {
         // forward conversion
         let tool = if c.bed { if c.ucsc { "bedToBigBed" } else { "bedtobigbed" } } else if c.ucsc { "bedGraphToBigWig" } else { "bedgraphtobigwig" };
         let mut argv: Vec<String> = if c.multicall { vec![s("bigtools"), s(tool)] } else { vec![s(tool)] };
-        argv.extend([s("in.txt"), s("sizes"), s("out.bb")]);
+        argv.extend([s(if c.stdin { stdin_name } else { "in.txt" }), s("sizes"), s("out.bb")]);
         argv.extend([s("-t"), c.threads.to_string(), s("-p"), c.parallel.clone()]);
         if c.single_pass {
             argv.push(s("--single-pass"));
@@ -242,8 +253,11 @@ impl Check for C16 {
         if c.zooms {
             argv.extend([s("--zooms"), s("10,40")]);
         }
-        let r = run_in(dir, &argv);
+        let r = run_in_stdin(dir, &argv, if c.stdin { Some("in.txt") } else { None });
         out.count("process_runs", 1);
+        if c.stdin {
+            out.count("conversions_from_stdin", 1);
+        }
         if r.stderr.starts_with("HARNESS") {
             out.fail("harness_panic", &[], r.stderr);
             return;
@@ -407,14 +421,93 @@ impl Check for C16 {
                 }
             }
         }
+        // --overlap-bed / -bed=: one range query per line of a regions file, in the file's order
+        {
+            let (c0, l0) = present[0].clone();
+            let (c1, _) = present[present.len() - 1].clone();
+            let mid = present[1.min(present.len() - 1)].clone();
+            let regs: Vec<(String, u32, u32, &str)> = vec![(c0.clone(), 2, 11, "\tfirst"), (mid.0.clone(), 0, mid.1, ""), (c0.clone(), 5, l0, "\tx\t7"), (c1.clone(), 0, 1, ""), (c0.clone(), 2, 11, "")];
+            let mut rb = String::new();
+            for (ch, a, b, extra) in &regs {
+                rb.push_str(&format!("{}\t{}\t{}{}\n", ch, a, b, extra));
+            }
+            std::fs::write(dir.join("regions.bed"), &rb).unwrap();
+            let mut a: Vec<String> = if c.multicall { vec![s("bigtools"), s(back_tool)] } else { vec![s(back_tool)] };
+            a.extend([s("out.bb"), s("ob.txt")]);
+            if c.ucsc {
+                a.push(s("-bed=regions.bed"));
+            } else {
+                a.extend([s("--overlap-bed"), s("regions.bed")]);
+            }
+            let r = run_in(dir, &a);
+            out.count("process_runs", 1);
+            out.count("overlap_bed_runs", 1);
+            if r.timed_out || r.code != Some(0) {
+                out.fail("restricted_conversion_failed", &tags, format!("{:?}: exit {:?} stderr {}", a, r.code, r.stderr.chars().take(200).collect::<String>()));
+            } else {
+                let got = std::fs::read_to_string(dir.join("ob.txt")).unwrap_or_default();
+                let lib: Result<Vec<String>, String> = guarded(|| {
+                    let mut v = vec![];
+                    for (chrom, qs, qe, _) in &regs {
+                        if c.bed {
+                            let mut rd = BigBedRead::open(std::io::Cursor::new(bytes.clone())).map_err(|e| format!("{}", e))?;
+                            for e in rd.get_interval(chrom, *qs, *qe).map_err(|e| format!("{}", e))? {
+                                let e = e.map_err(|e| format!("{}", e))?;
+                                // the tool clips entries to the region
+                                let (es, ee) = (e.start.max(*qs), e.end.min(*qe));
+                                v.push(if e.rest.is_empty() { format!("{}\t{}\t{}", chrom, es, ee) } else { format!("{}\t{}\t{}\t{}", chrom, es, ee, e.rest) });
+                            }
+                        } else {
+                            let mut rd = BigWigRead::open(std::io::Cursor::new(bytes.clone())).map_err(|e| format!("{}", e))?;
+                            for e in rd.get_interval(chrom, *qs, *qe).map_err(|e| format!("{}", e))? {
+                                let e = e.map_err(|e| format!("{}", e))?;
+                                v.push(format!("{}\t{}\t{}\t{}", chrom, e.start, e.end, e.value.to_bits()));
+                            }
+                        }
+                    }
+                    Ok(v)
+                })
+                .unwrap_or_else(|p| Err(format!("panic: {}", p)));
+                let got_norm: Result<Vec<String>, String> = if c.bed {
+                    Ok(got.lines().map(|l| l.to_string()).collect())
+                } else {
+                    parse_bg(&got).map(|v| v.into_iter().map(|(c, a, b, v)| format!("{}\t{}\t{}\t{}", c, a, b, v)).collect())
+                };
+                match (lib, got_norm) {
+                    (Err(e), _) => out.fail("library_query_failed", &tags, e),
+                    (_, Err(e)) => out.fail("restricted_output_differs_from_range_query", &tags, e),
+                    (Ok(lib), Ok(g)) => {
+                        if g != lib {
+                            out.fail("restricted_output_differs_from_range_query", &tags, format!("{:?} with regions {:?}: tool printed {:?}, the library's range queries give {:?}", a, regs, g, lib));
+                        }
+                        // every input record strictly overlapping a region appears (clipped) for that region
+                        for (chrom, qs, qe, _) in &regs {
+                            for l in text.lines() {
+                                let f: Vec<&str> = l.split('\t').collect();
+                                let (cs, ce): (u32, u32) = (f[1].parse().unwrap(), f[2].parse().unwrap());
+                                if f[0] == chrom && cs < *qe && ce > *qs {
+                                    let found = g.iter().any(|x| {
+                                        let gf: Vec<&str> = x.split('\t').collect();
+                                        gf[0] == chrom && gf[1].parse::<u32>().unwrap() == cs.max(*qs) && gf[2].parse::<u32>().unwrap() == ce.min(*qe)
+                                    });
+                                    if !found {
+                                        out.fail("restricted_output_misses_overlapping_record", &tags, format!("{:?}: record {:?} overlaps region {} [{},{}) but is not in the output", a, l, chrom, qs, qe));
+                                    }
+                                }
+                            }
+                        }
+                    }
+                }
+            }
+        }
     }
     fn space(&self, tier: Tier) -> serde_json::Value {
         json!({
             "inputs": "4 bedGraph + 4 BED texts (extra columns, lexicographic-not-numeric chromosome names, single-line chromosomes, no final newline, duplicates, overlaps)",
-            "product": "threads {1,2,3,6,16} x parallel {auto,yes,no} x single-pass x inmemory x uncompressed x block-size {2,256} x zooms x {applet, bigtools <sub>} x {native flags, UCSC spellings and names}",
+            "product": "threads {1,2,3,6,16} x parallel {auto,yes,no} x single-pass x inmemory x uncompressed x block-size {2,256} x zooms x {applet, bigtools <sub>} x {native flags, UCSC spellings and names} x {file, standard input named - / stdin / /dev/stdin (threads 1 and 6, parallel auto)}",
             "subsample": if tier == Tier::Quick { "systematic 1-in-19 of the mixed-radix product" } else { "full product" },
             "configurations": c16_all(tier == Tier::Quick).len(),
-            "back_conversion": "-t 1, 2, 6, 16 (+ --inmemory) and 9 restricted (chrom,start,end) variants per file",
+            "back_conversion": "-t 1, 2, 6, 16 (+ --inmemory), 9 restricted (chrom,start,end) variants and one --overlap-bed / -bed= run (5 regions) per file",
         })
     }
     fn case_cap_s(&self) -> u64 {
@@ -435,6 +528,15 @@ pub struct MergeTool {
     pub output: String,
     pub output_type: Option<String>,
     pub ucsc: bool,
+    /// how the inputs are named: 0 `-b f` each, 1 `-l list`, 2 kent style positional
+    /// (`bigWigMerge in.. out`), 3 kent style `-inList list out`
+    #[serde(default)]
+    pub input_style: u8,
+    /// when > 0: this many generated inputs instead of `inputs` (more than the tool keeps open
+    /// at once, so that it merges in chunks); all but the last six hold -1 on chrX [10,20), the
+    /// last six +200, so every partial sum of a chunk is negative while the total is positive
+    #[serde(default)]
+    pub many: usize,
 }
 
 const MLEN: u32 = 120_000;
@@ -460,11 +562,21 @@ pub fn merge_tool_cases(quick: bool) -> Vec<MergeTool> {
                         if quick && n % 5 != 0 {
                             continue;
                         }
-                        v.push(MergeTool { inputs: inputs.clone(), clip, adjust, threshold, output: s(o), output_type: ot.map(s), ucsc: n % 2 == 0 });
+                        // kent style calls (styles 2, 3) have no flags with separate values
+                        let style = (v.len() % 4) as u8;
+                        let (ucsc, input_style) = if style >= 2 && ot.is_none() { (true, style) } else { (n % 2 == 0, style % 2) };
+                        v.push(MergeTool { inputs: inputs.clone(), clip, adjust, threshold, output: s(o), output_type: ot.map(s), ucsc, input_style, many: 0 });
                     }
                 }
             }
         }
+    }
+    // more inputs than the tool keeps open at once (976): merged in chunks
+    for (k, (adjust, threshold, o)) in [(None, None, "out.bedGraph"), (Some(0.5f32), Some(-10.0f32), "out.bw"), (Some(-1.0), None, "out.bw"), (None, Some(0.5), "out.bedGraph")].into_iter().enumerate() {
+        if quick && k >= 2 {
+            continue;
+        }
+        v.push(MergeTool { inputs: vec![], clip: Some(1000.0), adjust, threshold, output: s(o), output_type: None, ucsc: false, input_style: 1, many: 982 });
     }
     v
 }
@@ -473,14 +585,22 @@ pub fn c15_tool(t: &MergeTool, out: &mut Outcome) {
     let wd = workdir();
     let dir = wd.path();
     let all = merge_inputs();
+    let contents: Vec<Vec<(String, Vec<(u32, u32, f32)>)>> = if t.many > 0 {
+        (0..t.many).map(|k| vec![(s("chrX"), vec![(10, 20, if k + 6 < t.many { -1.0 } else { 200.0 }), (30 + (k % 3) as u32, 40, 1.0)])]).collect()
+    } else {
+        t.inputs.iter().map(|i| all[*i].clone()).collect()
+    };
+    if t.many > 0 {
+        out.count("tool_merge_runs_with_more_inputs_than_open_files", 1);
+    }
     let mut argv = vec![if t.ucsc { s("bigWigMerge") } else { s("bigwigmerge") }];
-    for (k, i) in t.inputs.iter().enumerate() {
+    for (k, content) in contents.iter().enumerate() {
         let spec = EncSpec {
             bed: false,
             le: true,
             compress: k % 2 == 0,
             version: 4,
-            chroms: all[*i].iter().map(|(n, items)| EncChrom { name: n.clone(), size: MLEN, wig: vec![WigSec::T1(items.clone())], bed: vec![] }).collect(),
+            chroms: content.iter().map(|(n, items)| EncChrom { name: n.clone(), size: MLEN, wig: vec![WigSec::T1(items.clone())], bed: vec![] }).collect(),
             chrom_block: 64,
             chrom_level_order: false,
             fanout: 4,
@@ -494,9 +614,22 @@ pub fn c15_tool(t: &MergeTool, out: &mut Outcome) {
             autosql: None,
         };
         std::fs::write(dir.join(format!("in{}.bw", k)), encode(&spec).bytes).unwrap();
-        argv.extend([s("-b"), format!("in{}.bw", k)]);
+        match t.input_style {
+            0 => argv.extend([s("-b"), format!("in{}.bw", k)]),
+            2 => argv.push(format!("in{}.bw", k)),
+            _ => {}
+        }
     }
-    let mut tags = vec![format!("output_{}", t.output.to_lowercase().replace('.', "_"))];
+    if t.input_style == 1 || t.input_style == 3 {
+        let list: String = (0..contents.len()).map(|k| format!("in{}.bw\n", k)).collect();
+        std::fs::write(dir.join("inputs.txt"), list).unwrap();
+        if t.input_style == 1 {
+            argv.extend([s("-l"), s("inputs.txt")]);
+        } else {
+            argv.extend([s("-inList"), s("inputs.txt")]);
+        }
+    }
+    let mut tags = vec![format!("output_{}", t.output.to_lowercase().replace('.', "_")), format!("input_style_{}", t.input_style)];
     if let Some(c) = t.clip {
         argv.push(if t.ucsc { format!("-clip={}", c) } else { format!("--clip={}", c) });
     }
@@ -513,6 +646,7 @@ pub fn c15_tool(t: &MergeTool, out: &mut Outcome) {
     argv.push(t.output.clone());
     let r = run_in(dir, &argv);
     out.count("tool_merge_runs", 1);
+    out.count(&format!("tool_merge_runs_input_style_{}", t.input_style), 1);
     if r.stderr.starts_with("HARNESS") {
         out.fail("harness_panic", &[], r.stderr);
         return;
@@ -526,8 +660,8 @@ pub fn c15_tool(t: &MergeTool, out: &mut Outcome) {
     }
     // expected per-base values
     let mut chroms: std::collections::BTreeMap<String, Vec<(f64, bool)>> = std::collections::BTreeMap::new();
-    for i in &t.inputs {
-        for (n, items) in &all[*i] {
+    for content in &contents {
+        for (n, items) in content {
             let v = chroms.entry(n.clone()).or_insert_with(|| vec![(0.0, false); MLEN as usize]);
             for (a, b, x) in items {
                 for p in *a..*b {
@@ -636,14 +770,14 @@ pub struct AvgTool {
     pub final_newline: bool,
 }
 
-fn avg_files() -> Vec<Vec<(String, Vec<(u32, u32, f32)>)>> {
+pub fn avg_files() -> Vec<Vec<(String, Vec<(u32, u32, f32)>)>> {
     vec![
         vec![(s("chr1"), vec![(0, 4, 1.0), (4, 8, 3.0), (16, 32, -2.0), (100, 101, 8.0)]), (s("chr2"), vec![(8, 16, 0.5)])],
         vec![(s("chr1"), vec![(2, 3, 4.0)]), (s("chr10"), vec![(0, 64, 0.25)]), (s("chr2"), vec![(0, 1, 1.0), (1, 2, 2.0), (2, 4, 3.0)])],
     ]
 }
 
-fn avg_regions(k: usize) -> Vec<(String, u32, u32, String)> {
+pub fn avg_regions(k: usize) -> Vec<(String, u32, u32, String)> {
     // regions whose sizes are powers of two so that every quotient is exact at 3 decimals
     match k {
         0 => vec![(s("chr1"), 0, 8, s("r0"))],
@@ -819,8 +953,9 @@ pub fn c17_tool(t: &AvgTool, out: &mut Outcome) {
 
 pub fn tool_space() -> serde_json::Value {
     json!({
-        "merge_tool": "1-3 inputs written by the independent encoder (chromosome length 120000; values at base 0, across 50,000 and 100,000, cancelling, explicit zeros, a chromosome missing from some inputs) x clip x adjust x threshold x output names {out.bw, out.bigWig, out.bedGraph, OUT.BW, --output-type bigwig / BedGraph} x flag styles",
-        "average_tool": "2 bigWigs x 3 region lists (1, 3, 68 regions) x name modes x --min-max x final newline x -t 1..16 (byte-identical), plus bigwigvaluesoverbed",
+        "merge_tool": "1-3 inputs written by the independent encoder (chromosome length 120000; values at base 0, across 50,000 and 100,000, cancelling, explicit zeros, a chromosome missing from some inputs) x clip x adjust x threshold x output names {out.bw, out.bigWig, out.bedGraph, OUT.BW, --output-type bigwig / BedGraph} x flag styles x input styles {-b each, -l list, kent positional, kent -inList}; plus 982 generated inputs (more than the 976 the tool keeps open: merged in chunks) whose chunk sums are negative while the total is positive",
+        "average_tool": "2 bigWigs x 4 region lists (1, 3, 68 regions, names with blanks / empty) x name modes x --min-max x final newline x -t 1..16 (byte-identical), plus bigwigvaluesoverbed",
+        "python_binding": "average_over_bed: 2 bigWigs x 4 region lists x names {absent, True, False, 0, 1, 4, 5} x stats {absent, all, All, mean, min, [sum,bases], [max,min,mean0,size], [bases]}",
     })
 }
 
@@ -853,7 +988,14 @@ pub fn c19_tool_from(extra: usize, supplied: Option<(String, usize)>, threads: u
     }
     if let Some((text, _)) = &supplied {
         std::fs::write(dir.join("schema.as"), text).unwrap();
-        argv.extend([s("--autosql"), s("schema.as")]);
+        // native and UCSC spellings alternate
+        if (extra + threads + text.len()) % 2 == 0 {
+            argv.extend([s("--autosql"), s("schema.as")]);
+        } else {
+            argv[0] = s("bedToBigBed");
+            argv.push(s("-as=schema.as"));
+            out.count("tool_schema_runs_ucsc_spelling", 1);
+        }
     }
     let r = run_in_stdin(dir, &argv, stdin.map(|_| "in.bed"));
     out.count("tool_schema_runs", 1);
@@ -896,6 +1038,15 @@ pub fn c19_tool_from(extra: usize, supplied: Option<(String, usize)>, threads: u
             if n != 3 {
                 out.fail("schema_tool_records", &tags, format!("{} entries decoded, 3 written", n));
             }
+            // bigbedinfo --autosql prints the stored schema and the header's field count
+            let a = vec![s("bigbedinfo"), s("out.bb"), s("--autosql")];
+            let r = run_in(dir, &a);
+            out.count("tool_schema_info_runs", 1);
+            let want_fc = format!("fieldCount: {}\n", d.field_count);
+            let want_as = if asql.is_empty() { s("as:  n/a\n") } else { format!("as:\n{}basesCovered:", asql) };
+            if r.code != Some(0) || !r.stdout.contains(&want_fc) || !r.stdout.contains(&want_as) {
+                out.fail("info_tool_misreports_schema", &tags, format!("{:?}: exit {:?}, output {:?} lacks {:?} or {:?}", a, r.code, r.stdout.chars().take(600).collect::<String>(), want_fc, want_as));
+            }
         }
     }
 }
@@ -930,10 +1081,85 @@ pub fn refuse_tool_cases(quick: bool) -> Vec<RefuseTool> {
             }
         }
     }
+    // bigwigmerge: a chromosome with different sizes in two inputs cannot be merged
+    for what in ["merge_mismatched_sizes", "merge_mismatched_sizes_first_chrom", "merge_valid"] {
+        for threads in [1usize, 4] {
+            for single_pass in [false, true] {
+                // single_pass selects the bedGraph output here
+                v.push(RefuseTool { bed: false, what: s(what), threads, parallel: s("no"), single_pass });
+            }
+        }
+    }
     v
 }
 
+/// bigwigmerge on inputs that cannot be merged (a chromosome with different sizes) / can.
+fn c13_merge_tool(t: &RefuseTool, out: &mut Outcome) {
+    let wd = workdir();
+    let dir = wd.path();
+    let mk = |name: &str, sizes: &[(&str, u32)]| {
+        let spec = EncSpec {
+            bed: false,
+            le: true,
+            compress: true,
+            version: 4,
+            chroms: sizes.iter().map(|(n, l)| EncChrom { name: s(n), size: *l, wig: vec![WigSec::T1(vec![(1, 5, 1.0)])], bed: vec![] }).collect(),
+            chrom_block: 64,
+            chrom_level_order: false,
+            fanout: 4,
+            placement: Placement::LevelOrder,
+            zooms: vec![],
+            zoom_ips: 4,
+            zoom_blocks_span_chroms: false,
+            trailing_magic: true,
+            index_last: false,
+            no_summary: false,
+            autosql: None,
+        };
+        std::fs::write(dir.join(name), encode(&spec).bytes).unwrap();
+    };
+    mk("a.bw", &[("chr1", 100), ("chr2", 50)]);
+    match t.what.as_str() {
+        "merge_mismatched_sizes" => mk("b.bw", &[("chr1", 100), ("chr2", 60)]),
+        "merge_mismatched_sizes_first_chrom" => mk("b.bw", &[("chr1", 99)]),
+        _ => mk("b.bw", &[("chr2", 50), ("chr3", 10)]),
+    }
+    let output = if t.single_pass { "out.bedGraph" } else { "out.bw" };
+    let argv = vec![s("bigwigmerge"), s("-b"), s("a.bw"), s("-b"), s("b.bw"), s(output), s("-t"), t.threads.to_string()];
+    let r = run_in(dir, &argv);
+    out.count("tool_refusal_runs", 1);
+    out.count("tool_merge_refusal_runs", 1);
+    let tags = vec![format!("tool_{}", t.what), s("bigwigmerge")];
+    if r.stderr.starts_with("HARNESS") {
+        out.fail("harness_panic", &[], r.stderr);
+        return;
+    }
+    if r.timed_out {
+        out.fail("tool_hangs", &tags, format!("{:?} did not finish within 60 s", argv));
+        return;
+    }
+    let panicked = r.code == Some(101) || r.code.is_none();
+    if t.what == "merge_valid" {
+        if r.code != Some(0) || panicked {
+            out.fail("tool_fails_on_valid_input", &tags, format!("{:?}: exit {:?} stderr {}", argv, r.code, r.stderr.chars().take(300).collect::<String>()));
+        } else {
+            out.count("tool_valid_ok", 1);
+        }
+        return;
+    }
+    if panicked {
+        out.fail("tool_panics_on_invalid_input", &tags, format!("{:?}: exit {:?} stderr {}", argv, r.code, r.stderr.chars().take(300).collect::<String>()));
+    } else if r.code == Some(0) {
+        out.fail("tool_exit_0_on_invalid_input", &tags, format!("{:?}: exit 0 for inputs that cannot be merged ({}); stderr {}", argv, t.what, r.stderr.chars().take(200).collect::<String>()));
+    } else {
+        out.count("tool_invalid_refused", 1);
+    }
+}
+
 pub fn c13_tool(t: &RefuseTool, out: &mut Outcome) {
+    if t.what.starts_with("merge_") {
+        return c13_merge_tool(t, out);
+    }
     let wd = workdir();
     let dir = wd.path();
     let mut rows: Vec<(String, i64, i64)> = vec![];
